@@ -184,7 +184,7 @@ package dkg
 //@ ensures r1 == nil ==> ncalls(newFrostParticipants) == 1 && ncalls(round1) == 1 && ncalls(tp.Round1) == 1 && ncalls(round2) == 1 && ncalls(tp.Round2) == 1 && ncalls(makeShares) == 1
 //@ canary r1 != nil
 
-//@ pure tblsconv.SignatureFromBytes tbls.Verify tbls.Aggregate core.ParSignedData.Signature core.SignedData.Signature
+//@ pure core.PubKeyFromBytes tblsconv.PubkeyFromCore tblsconv.SignatureFromBytes tbls.Verify tbls.Aggregate core.ParSignedData.Signature core.SignedData.Signature
 
 // Every partial lock-hash signature is verified against the public share that the ceremony published for
 // ITS share index and validator, over the lock hash; only verified ones are aggregated.
@@ -198,3 +198,41 @@ package dkg
 //@ loop 1 invariant len(sigs) == ncalls(tbls.Verify) && len(pubkeys) == ncalls(tbls.Verify) && nOK == old(nOK) + ncalls(tbls.Verify) && ncalls(tbls.Aggregate) == 0
 //@ loop 2 invariant len(sigs) == ncalls(tbls.Verify) && len(pubkeys) == ncalls(tbls.Verify) && nOK == old(nOK) + ncalls(tbls.Verify) && ncalls(tbls.Aggregate) == 0
 //@ canary r2 != nil
+
+// Deposit data and builder registrations: every partial signature is verified against the public share the ceremony
+// published for ITS share index and validator, over the signing root of that validator's own message; only verified
+// partials are aggregated, and the aggregate is verified under the validator's group key before it is used.
+// fromShares(sh, n, k, v): v is the public-share table of one of the first n shares, and k is that share's validator key.
+//@ spec func fromShares(sh []share.Share, n int, k core.PubKey, v map[int]tbls.PublicKey) bool = n > 0 && ((sh[n-1].PublicShares == v && res(0, core.PubKeyFromBytes(sh[n-1].PubKey[:])) == k) || fromShares(sh, n-1, k, v))
+//@ func aggDepositData
+//@ props C11
+//@ callreq deposit.GetMessageSigningRoot: has(msgs, pk) && a1 == msgs[pk] && a2 == network
+//@ callreq tbls.Verify#1: has(pubkeyToPubShares, pk) && has(pubkeyToPubShares[pk], s.ShareIdx) && a1 == pubkeyToPubShares[pk][s.ShareIdx] && a2 == sigRoot[:] && a3 == res(0, tblsconv.SignatureFromBytes(s.Signature()))
+//@ callreq tbls.ThresholdAggregate: a1 == psigs && forallk(k, psigs, has(pubkeyToPubShares[pk], k) && tbls.Verify(pubkeyToPubShares[pk][k], sigRoot[:], psigs[k]) == nil)
+//@ callreq tbls.Verify#2: a1 == res(0, tblsconv.PubkeyFromCore(pk)) && a2 == sigRoot[:] && a3 == asig
+//@ ghost nGroup int
+//@ ghostcall tbls.Verify: nGroup = nGroup + ite(a1 == res(0, tblsconv.PubkeyFromCore(pk)) && tbls.Verify(a1, a2, a3) == nil, 1, 0)
+//@ ensures r1 == nil ==> len(r0) == len(data) && ncalls(tbls.ThresholdAggregate) == len(data) && nGroup >= old(nGroup) + len(data)
+//@ loop 1 invariant forallk(k, pubkeyToPubShares, fromShares(shares, $i, k, pubkeyToPubShares[k]))
+//@ loop 2 invariant len(resp) == $i && ncalls(tbls.ThresholdAggregate) == $i && nGroup >= old(nGroup) + $i
+//@ loop 2 invariant forallk(k, pubkeyToPubShares, fromShares(shares, len(shares), k, pubkeyToPubShares[k]))
+//@ loop 3 invariant nGroup >= atentry(nGroup)
+//@ loop 3 invariant forallk(k, psigs, has(pubkeyToPubShares[pk], k) && tbls.Verify(pubkeyToPubShares[pk][k], sigRoot[:], psigs[k]) == nil)
+//@ canary r1 != nil
+
+//@ func aggValidatorRegistrations
+//@ props C11
+//@ callreq registration.GetMessageSigningRoot: has(msgs, pk) && a1 == msgs[pk].V1.Message && a2 == eth2p0.Version(forkVersion)
+//@ callreq tbls.Verify#1: has(pubkeyToPubShares, pk) && has(pubkeyToPubShares[pk], s.ShareIdx) && a1 == pubkeyToPubShares[pk][s.ShareIdx] && a2 == sigRoot[:] && a3 == res(0, tblsconv.SignatureFromBytes(s.Signature()))
+//@ callreq tbls.ThresholdAggregate: a1 == psigs && forallk(k, psigs, has(pubkeyToPubShares[pk], k) && tbls.Verify(pubkeyToPubShares[pk][k], sigRoot[:], psigs[k]) == nil)
+//@ callreq tbls.Verify#2: a1 == res(0, tblsconv.PubkeyFromCore(pk)) && a2 == sigRoot[:] && a3 == asig
+//@ callreq setRegistrationSignature: a1 == msgs[pk] && a2 == asig[:]
+//@ ghost nGroup int
+//@ ghostcall tbls.Verify: nGroup = nGroup + ite(a1 == res(0, tblsconv.PubkeyFromCore(pk)) && tbls.Verify(a1, a2, a3) == nil, 1, 0)
+//@ ensures r1 == nil ==> len(r0) == len(data) && ncalls(tbls.ThresholdAggregate) == len(data) && nGroup >= old(nGroup) + len(data)
+//@ loop 1 invariant forallk(k, pubkeyToPubShares, fromShares(shares, $i, k, pubkeyToPubShares[k]))
+//@ loop 2 invariant len(resp) == $i && ncalls(tbls.ThresholdAggregate) == $i && nGroup >= old(nGroup) + $i
+//@ loop 2 invariant forallk(k, pubkeyToPubShares, fromShares(shares, len(shares), k, pubkeyToPubShares[k]))
+//@ loop 3 invariant nGroup >= atentry(nGroup)
+//@ loop 3 invariant forallk(k, psigs, has(pubkeyToPubShares[pk], k) && tbls.Verify(pubkeyToPubShares[pk][k], sigRoot[:], psigs[k]) == nil)
+//@ canary r1 != nil
